@@ -5,7 +5,7 @@ CONSTANTS
     EveryCounts = {1, 2, 3, 4, 5}
     Fills = {FALSE, TRUE}
     Times = {0, 1}
-    MaxPoints = 10
+    MaxPoints = 8
 INVARIANTS
     CTypeOK
     CountWindow
